@@ -299,48 +299,58 @@ func overlapSearch(c *kit.Ctx) {
 			if !ok {
 				return "", false, false
 			}
-			if cmp.Bytes && cmp.Op == token.EQL {
+			swapOp := map[token.Token]token.Token{token.LSS: token.GTR, token.GTR: token.LSS, token.LEQ: token.GEQ, token.GEQ: token.LEQ, token.EQL: token.EQL, token.NEQ: token.NEQ}
+			if cmp.Bytes && (cmp.Op == token.EQL || cmp.Op == token.NEQ) {
 				for _, m := range []string{"Namespace", "Table"} {
 					x, ok1 := getter(cmp.X, m)
 					y, ok2 := getter(cmp.Y, m)
 					if ok1 && ok2 && ((x == A && y == B) || (x == B && y == A)) {
-						return m + "Eq", true, true
+						return m + "Eq", cmp.Op == token.EQL, true
 					}
 				}
 			}
-			if !cmp.Bytes && cmp.Op == token.EQL {
-				if l := kit.LenOf(cmp.X); l != nil {
-					if k, ok := kit.ConstInt(cmp.Y); ok && k == 0 {
-						if r, ok := getter(l, "StopKey"); ok {
-							if r == A {
-								return "aStopEmpty", true, true
-							}
+			if !cmp.Bytes {
+				// len(X.StopKey()) compared with a constant, either operand order
+				op, lx, ky := cmp.Op, cmp.X, cmp.Y
+				if kit.LenOf(lx) == nil && kit.LenOf(ky) != nil {
+					op, lx, ky = swapOp[op], ky, lx
+				}
+				if l := kit.LenOf(lx); l != nil {
+					if k, ok := kit.ConstInt(ky); ok {
+						if r, ok := getter(l, "StopKey"); ok && (r == A || r == B) {
+							name := "aStopEmpty"
 							if r == B {
-								return "bStopEmpty", true, true
+								name = "bStopEmpty"
+							}
+							switch {
+							case op == token.EQL && k == 0, op == token.LEQ && k == 0, op == token.LSS && k == 1:
+								return name, true, true
+							case op == token.NEQ && k == 0, op == token.GTR && k == 0, op == token.GEQ && k == 1:
+								return name, false, true
 							}
 						}
 					}
 				}
 			}
 			if cmp.Bytes {
-				// A.start < B.stop   (strict)
-				xs, okxs := getter(cmp.X, "StartKey")
-				yt, okyt := getter(cmp.Y, "StopKey")
-				xt, okxt := getter(cmp.X, "StopKey")
-				ys, okys := getter(cmp.Y, "StartKey")
-				switch {
-				case cmp.Op == token.LSS && okxs && okyt && xs == A && yt == B:
-					return "aStartLtBStop", true, true
-				case cmp.Op == token.GTR && okxt && okys && xt == B && ys == A:
-					return "aStartLtBStop", true, true
-				case cmp.Op == token.GTR && okxt && okys && xt == A && ys == B:
-					return "aStopGtBStart", true, true
-				case cmp.Op == token.LSS && okxs && okyt && xs == B && yt == A:
-					return "aStopGtBStart", true, true
-				case cmp.Op == token.GEQ && okxs && okyt && xs == A && yt == B:
-					return "aStartLtBStop", false, true
-				case cmp.Op == token.LEQ && okxt && okys && xt == A && ys == B:
-					return "aStopGtBStart", false, true
+				// orient every comparison as start OP stop
+				op, x, y := cmp.Op, cmp.X, cmp.Y
+				if _, isStop := getter(x, "StopKey"); isStop {
+					op, x, y = swapOp[op], y, x
+				}
+				xs, okxs := getter(x, "StartKey")
+				yt, okyt := getter(y, "StopKey")
+				if okxs && okyt {
+					switch {
+					case xs == A && yt == B && op == token.LSS: // A.start < B.stop
+						return "aStartLtBStop", true, true
+					case xs == A && yt == B && op == token.GEQ:
+						return "aStartLtBStop", false, true
+					case xs == B && yt == A && op == token.LSS: // B.start < A.stop  ==  A.stop > B.start
+						return "aStopGtBStart", true, true
+					case xs == B && yt == A && op == token.GEQ:
+						return "aStopGtBStart", false, true
+					}
 				}
 			}
 			return "", false, false
